@@ -399,4 +399,327 @@ theorem chooseDialTarget_eq (w : World) (ob : Nat) (dst : Dst) (d : Str) :
   rcases decideMode w ob dst d with ⟨w1, u, rr, pr⟩
   simp only []
 
+/-! ## what a successful `ParseAddr` says about the characters -/
+
+/-- hex digit, `:` or `.` — the alphabet of a zone-less IP literal -/
+def isLitChar (c : Char) : Bool := isHex c || c = ':' || c = '.'
+
+theorem isDigit_isHex {c : Char} (h : isDigit c = true) : isHex c = true := by simp [isHex, h]
+
+theorem v4Loop_chars : ∀ (s : Str) (val digLen pos : Nat) (i0 prevDot : Bool),
+    v4Loop s val digLen pos i0 prevDot = true → ∀ c ∈ s, isDigit c = true ∨ c = '.'
+  | [], _, _, _, _, _, _ => by simp
+  | c :: rest, val, digLen, pos, i0, prevDot, h => by
+    unfold v4Loop at h
+    intro x hx
+    split at h
+    · rename_i hd
+      split at h
+      · simp at h
+      · simp only [] at h
+        split at h
+        · simp at h
+        · rcases List.mem_cons.1 hx with rfl | hx
+          · exact Or.inl hd
+          · exact v4Loop_chars rest _ _ _ _ _ h x hx
+    · split at h
+      · rename_i hdot
+        split at h
+        · simp at h
+        · split at h
+          · simp at h
+          · rcases List.mem_cons.1 hx with rfl | hx
+            · exact Or.inr hdot
+            · exact v4Loop_chars rest _ _ _ _ _ h x hx
+      · simp at h
+
+theorem parseV4Ok_chars {s : Str} (h : parseV4Ok s = true) : ∀ c ∈ s, isLitChar c = true := by
+  intro c hc
+  rcases v4Loop_chars s 0 0 0 true false h c hc with h | h
+  · simp [isLitChar, isDigit_isHex h]
+  · simp [isLitChar, h]
+
+theorem mem_takeWhile_imp' {p : Char → Bool} : ∀ {l : Str} {c : Char}, c ∈ l.takeWhile p → p c = true
+  | [], _, h => by simp at h
+  | x :: l, c, h => by
+    rw [List.takeWhile_cons] at h
+    split at h
+    · rename_i hx
+      rcases List.mem_cons.1 h with rfl | h
+      · exact hx
+      · exact mem_takeWhile_imp' h
+    · simp at h
+
+theorem v6Loop_chars : ∀ (fuel : Nat) (s : Str) (i : Nat) (ell : Bool),
+    v6Loop fuel s i ell = true → ∀ c ∈ s, isLitChar c = true
+  | 0, _, _, _, h => by simp [v6Loop] at h
+  | fuel + 1, s, i, ell, h => by
+    unfold v6Loop at h
+    split at h
+    · -- i ≥ 16: s is empty
+      simp only [Bool.and_eq_true, List.isEmpty_iff] at h
+      simp [h.1]
+    · simp only [] at h
+      split at h
+      · simp at h
+      · split at h
+        · simp at h
+        · have hs : s = s.takeWhile isHex ++ s.dropWhile isHex := List.takeWhile_append_dropWhile.symm
+          have hhex : ∀ c ∈ s.takeWhile isHex, isLitChar c = true := by
+            intro c hc
+            have := mem_takeWhile_imp' hc
+            simp [isLitChar, this]
+          split at h
+          · -- embedded IPv4: the whole rest parses as IPv4
+            split at h
+            · simp at h
+            · split at h
+              · simp at h
+              · split at h
+                · simp at h
+                · rename_i h4
+                  have h4' : parseV4Ok s = true := by simpa using h4
+                  exact parseV4Ok_chars h4'
+          · split at h
+            · -- rest = []
+              rename_i hr
+              intro c hc; rw [hs, hr] at hc; simp at hc; exact hhex c hc
+            · rename_i c0 rest1 hr
+              split at h
+              · simp at h
+              · rename_i hc0
+                have hc0' : c0 = ':' := by simpa using hc0
+                split at h
+                · simp at h
+                · rename_i c1 rest2
+                  split at h
+                  · rename_i hc1
+                    split at h
+                    · simp at h
+                    · split at h
+                      · -- `::` at the end
+                        intro c hc; rw [hs, hr] at hc
+                        simp only [List.mem_append, List.mem_cons, List.not_mem_nil, or_false] at hc
+                        rcases hc with hc | rfl | rfl
+                        · exact hhex c hc
+                        · simp [isLitChar, hc0']
+                        · simp [isLitChar, hc1]
+                      · have ih := v6Loop_chars fuel _ _ _ h
+                        intro c hc; rw [hs, hr] at hc
+                        simp only [List.mem_append, List.mem_cons] at hc
+                        rcases hc with hc | rfl | rfl | hc
+                        · exact hhex c hc
+                        · simp [isLitChar, hc0']
+                        · simp [isLitChar, hc1]
+                        · exact ih c hc
+                  · have ih := v6Loop_chars fuel _ _ _ h
+                    intro c hc; rw [hs, hr] at hc
+                    simp only [List.mem_append, List.mem_cons] at hc
+                    rcases hc with hc | rfl | hc
+                    · exact hhex c hc
+                    · simp [isLitChar, hc0']
+                    · exact ih c (by simpa using hc)
+
+theorem isLitChar_noBr {c : Char} (h : isLitChar c = true) : c ≠ '[' ∧ c ≠ ']' ∧ c ≠ '%' := by
+  refine ⟨?_, ?_, ?_⟩ <;> (rintro rfl; revert h; decide)
+
+/-- A string accepted by `netip.ParseAddr` that has no zone consists of hex digits, `:` and `.`. -/
+theorem parseAddrOk_chars {s : Str} (h : parseAddrOk s = true) (hz : hasChar '%' s = false) :
+    ∀ c ∈ s, isLitChar c = true := by
+  unfold parseAddrOk at h
+  split at h
+  · exact parseV4Ok_chars h
+  · unfold parseV6Ok at h
+    rw [splitFirst_none hz] at h
+    simp only [] at h
+    split at h
+    · rename_i r
+      split at h
+      · rename_i hr
+        simp only [List.isEmpty_iff] at hr
+        subst hr
+        intro c hc; simp at hc; rcases hc with rfl | rfl <;> decide
+      · have ih := v6Loop_chars _ _ _ _ h
+        intro c hc
+        simp only [List.mem_cons] at hc
+        rcases hc with rfl | rfl | hc
+        · decide
+        · decide
+        · exact ih c hc
+    · exact v6Loop_chars _ _ _ _ h
+  · simp at h
+
+theorem parseAddrOk_noBr {s : Str} (h : parseAddrOk s = true) (hz : hasChar '%' s = false) : NoBr s :=
+  noBr_of_forall fun c hc => let ⟨a, b, _⟩ := isLitChar_noBr (parseAddrOk_chars h hz c hc); ⟨a, b⟩
+
+/-! ## `stripBrackets` -/
+
+theorem stripBrackets_of_no_open {s : Str} (h : hasChar '[' s = false) : stripBrackets s = s := by
+  unfold stripBrackets
+  have : s.head? ≠ some '[' := by
+    intro e
+    cases s with
+    | nil => simp at e
+    | cons x s => simp at e; subst e; simp at h
+  simp [this]
+
+theorem stripBrackets_bracketed (x : Str) : stripBrackets ('[' :: (x ++ [']'])) = x := by
+  unfold stripBrackets
+  have e : ('[' :: (x ++ [']'])) = ('[' :: x) ++ [']'] := by simp
+  have g : ('[' :: (x ++ [']'])).getLast? = some ']' := by rw [e]; exact List.getLast?_concat
+  rw [if_pos ⟨by simp, g⟩]
+  simp
+
+/-! ## `NormalizeDomain` -/
+
+/-- the lower-cased, space-trimmed input on which `NormalizeDomain` branches -/
+def preNorm (raw : Str) : Str := (trimSpace raw).map lowerAscii
+
+theorem normalizeDomain_eq (raw : Str) :
+    normalizeDomain raw =
+      if (preNorm raw).getLast? = some ']' then trimBrackets (preNorm raw)
+      else match splitHostPort (preNorm raw) with
+        | some (h, _) => h
+        | none => if (preNorm raw).getLast? = some '.' then (preNorm raw).dropLast else preNorm raw := rfl
+
+theorem getLast?_ne_of_hasChar {c : Char} {s : Str} (h : hasChar c s = false) : s.getLast? ≠ some c := by
+  intro e
+  exact (hasChar_false_iff c s).1 h c (List.mem_of_getLast? e) rfl
+
+/-- a plain name (no `:`, `[`, `]`): only a trailing dot is removed. -/
+theorem normalize_plain {raw : Str} (hp : Plain (preNorm raw)) :
+    normalizeDomain raw =
+      if (preNorm raw).getLast? = some '.' then (preNorm raw).dropLast else preNorm raw := by
+  rw [normalizeDomain_eq, if_neg (getLast?_ne_of_hasChar hp.2.2)]
+  have : splitHostPort (preNorm raw) = none := by
+    unfold splitHostPort; rw [splitLast_none hp.1]
+  rw [this]
+
+/-- `name:port` / `v4:port`: the port is cut off. -/
+theorem normalize_host_port {raw h q : Str} (e : preNorm raw = h ++ ':' :: q) (hh : Plain h) (hq : Plain q) :
+    normalizeDomain raw = h := by
+  have hl : (preNorm raw).getLast? ≠ some ']' := by
+    apply getLast?_ne_of_hasChar
+    rw [e]; simp [hh.2.2, hq.2.2]
+  rw [normalizeDomain_eq, if_neg hl, e, splitHostPort_plain h q hh.1 hh.2.1 hh.2.2 hq.1 hq.2.1 hq.2.2]
+
+/-- `[literal]:port`: brackets and port are cut off. -/
+theorem normalize_bracketed_port {raw x q : Str} (e : preNorm raw = '[' :: (x ++ ']' :: ':' :: q))
+    (hx : NoBr x) (hq : Plain q) : normalizeDomain raw = x := by
+  have hl : (preNorm raw).getLast? ≠ some ']' := by
+    rw [e]
+    have e2 : ('[' :: (x ++ ']' :: ':' :: q)) = ('[' :: (x ++ [']'])) ++ (':' :: q) := by simp
+    rw [e2, List.getLast?_append]
+    cases q with
+    | nil => simp
+    | cons y q =>
+      have : (':' :: y :: q).getLast? = (y :: q).getLast? := by simp [List.getLast?_cons]
+      rw [this]
+      intro h
+      have hne := getLast?_ne_of_hasChar hq.2.2
+      cases hg : (y :: q).getLast? with
+      | none => simp at hg
+      | some z => rw [hg] at h; simp at h; exact hne (by rw [hg, h])
+  rw [normalizeDomain_eq, if_neg hl, e, splitHostPort_bracketed x q hx.1 hx.2 hq.1 hq.2.1 hq.2.2]
+
+theorem dropWhile_isBracket_noBr {x : Str} (hx : NoBr x) (y : Str) (hne : x ≠ []) :
+    (x ++ y).dropWhile isBracket = x ++ y := by
+  cases x with
+  | nil => exact absurd rfl hne
+  | cons c x =>
+    have : isBracket c = false := by
+      have h1 := hx.1; have h2 := hx.2
+      simp at h1 h2
+      simp [isBracket, h1.1, h2.1]
+    simp [List.dropWhile_cons, this]
+
+/-- `[literal]` (what the HTTP Host header of an IPv6 literal looks like): brackets removed. -/
+theorem normalize_bracketed {raw x : Str} (e : preNorm raw = '[' :: (x ++ [']'])) (hx : NoBr x) (hne : x ≠ []) :
+    normalizeDomain raw = x := by
+  have e2 : ('[' :: (x ++ [']'])) = ('[' :: x) ++ [']'] := by simp
+  have hl : (preNorm raw).getLast? = some ']' := by rw [e, e2]; exact List.getLast?_concat
+  rw [normalizeDomain_eq, if_pos hl, e]
+  unfold trimBrackets
+  have d1 : ('[' :: (x ++ [']'])).dropWhile isBracket = x ++ [']'] := by
+    rw [List.dropWhile_cons_of_pos (by decide)]
+    exact dropWhile_isBracket_noBr hx _ hne
+  rw [d1]
+  have r : (x ++ [']']).reverse = ']' :: x.reverse := by simp
+  rw [r, List.dropWhile_cons_of_pos (by decide)]
+  have hxr : NoBr x.reverse := by
+    apply noBr_of_forall
+    intro c hc
+    have hc' : c ∈ x := by simpa using hc
+    exact ⟨(hasChar_false_iff _ _).1 hx.1 c hc', (hasChar_false_iff _ _).1 hx.2 c hc'⟩
+  have := dropWhile_isBracket_noBr hxr [] (by simpa using hne)
+  simp only [List.append_nil] at this
+  rw [this]
+  simp
+
+/-! ## association lists -/
+
+theorem Assoc.mem_of_get {α} {m : Assoc α} {k : Str} {v : α} (h : m.get k = some v) : (k, v) ∈ m := by
+  unfold Assoc.get at h
+  cases hf : m.find? (·.1 = k) with
+  | none => simp [hf] at h
+  | some e =>
+    simp [hf] at h
+    have hm := List.mem_of_find?_eq_some hf
+    have hk := List.find?_some hf
+    simp at hk
+    cases e with
+    | mk a b => simp at h hk; subst h; subst hk; exact hm
+
+theorem Assoc.mem_del {α} {m : Assoc α} {k : Str} {x : Str × α} (h : x ∈ m.del k) : x ∈ m := by
+  unfold Assoc.del at h; exact (List.mem_filter.1 h).1
+
+theorem Assoc.mem_put {α} {m : Assoc α} {k : Str} {v : α} {x : Str × α} (h : x ∈ m.put k v) :
+    x = (k, v) ∨ x ∈ m := by
+  unfold Assoc.put at h
+  rcases List.mem_cons.1 h with h | h
+  · exact Or.inl h
+  · exact Or.inr (Assoc.mem_del h)
+
+theorem Assoc.get_put_self {α} (m : Assoc α) (k : Str) (v : α) : (m.put k v).get k = some v := by
+  simp [Assoc.put, Assoc.get]
+
+theorem find_filter_ne {α} (m : List (Str × α)) {k k' : Str} (h : k' ≠ k) :
+    (m.filter (fun x => decide (x.1 ≠ k'))).find? (fun x => decide (x.1 = k)) =
+      m.find? (fun x => decide (x.1 = k)) := by
+  induction m with
+  | nil => rfl
+  | cons e m ih =>
+    rw [List.filter_cons]
+    by_cases he : e.1 = k'
+    · have hk : ¬ e.1 = k := fun e' => h (he ▸ e')
+      rw [if_neg (by simp [he]), List.find?_cons_of_neg (by simp [hk]), ih]
+    · rw [if_pos (by simp [he])]
+      by_cases hk : e.1 = k
+      · rw [List.find?_cons_of_pos (by simp [hk]), List.find?_cons_of_pos (by simp [hk])]
+      · rw [List.find?_cons_of_neg (by simp [hk]), List.find?_cons_of_neg (by simp [hk]), ih]
+
+theorem Assoc.get_del_ne {α} (m : Assoc α) {k k' : Str} (h : k' ≠ k) : (m.del k').get k = m.get k := by
+  unfold Assoc.get Assoc.del
+  rw [find_filter_ne m h]
+
+theorem Assoc.get_put_ne {α} (m : Assoc α) {k k' : Str} (v : α) (h : k' ≠ k) : (m.put k' v).get k = m.get k := by
+  have : Assoc.get ((k', v) :: m.del k') k = (m.del k').get k := by
+    unfold Assoc.get
+    rw [List.find?_cons_of_neg (by simp [h])]
+  unfold Assoc.put
+  rw [this, Assoc.get_del_ne m h]
+
+theorem foldl_max_mem (x : Int) (xs : List Int) : xs.foldl max x ∈ x :: xs := by
+  induction xs generalizing x with
+  | nil => simp
+  | cons y ys ih =>
+    simp only [List.foldl_cons]
+    have := ih (max x y)
+    rcases List.mem_cons.1 this with h | h
+    · rw [h]
+      by_cases hxy : x ≤ y
+      · simp [Int.max_eq_right hxy]
+      · simp [Int.max_eq_left (Int.le_of_lt (Int.lt_of_not_ge hxy))]
+    · simp [h]
+
 end DaeVerif.C18
